@@ -3,3 +3,4 @@ import Driver.Slots
 import Driver.Sched
 import Driver.Report
 import Driver.Spell
+import Driver.Hidden
